@@ -109,6 +109,26 @@ Qed.
 Lemma pcinv_run : forall evs s T, run evs = Some s -> pcinv s T.
 Proof. intros evs s T H. eapply pcinv_run_from; [apply inv_init | apply pcinv_init | exact H]. Qed.
 
+Lemma stepr_dead : forall s e s' T, stepr s e = Ok s' -> F s T FDead <> 0 -> F s' T FDead <> 0.
+Proof.
+  intros s e s1 T E Hd. unfold F in *.
+  destruct (quiet e) eqn:Q; [destruct (stepr_quiet _ _ _ T Q E) as [_ _ _ _ _ Af]; rewrite (Af FDead eq_refl); auto |].
+  destruct (N.eq_dec (cn (getc s1 T) FDead) 0) as [Hz | Hz]; auto. exfalso.
+  destruct (option_map (N.eqb T) (txn_of e)) as [[|] |] eqn:Et.
+  2: { assert (Hne : txn_of e <> Some T) by (intros E'; rewrite E' in Et; cbn in Et; rewrite N.eqb_refl in Et; discriminate).
+       rewrite (stepr_getc_other _ _ _ T E Hne) in Hz. contradiction. }
+  2: { assert (Hne : txn_of e <> Some T) by (intros E'; rewrite E' in Et; discriminate).
+       rewrite (stepr_getc_other _ _ _ T E Hne) in Hz. contradiction. }
+  destruct e; cbn [quiet] in Q; try discriminate Q; cbn [txn_of option_map] in Et; inversion Et as [Et1]; apply N.eqb_eq in Et1; subst;
+    cbn [stepr] in E; unfold step_pw_send, step_pw_deliver, step_pw_reply, step_rb_send, step_cts_deliver, step_told in E; chks E;
+    repeat match type of E with
+           | (match ?d with _ => _ end) = Ok _ => destruct d eqn:?; chks E; try discriminate E
+           | (if ?d then _ else _) = Ok _ => destruct d eqn:?; chks E; try discriminate E
+           end; try (okinv E); revert Hz; getc_keys; rd;
+    repeat match goal with |- context [match ?d with _ => _ end] => is_var d; destruct d eqn:? end;
+    repeat match goal with |- context [if ?d then _ else _] => destruct d eqn:? end; rd; b2p; try congruence; try discriminate.
+Qed.
+
 (* the owner gave up (FDead) with every primary commit request answered negatively: the counters are
    frozen, so no commit request containing the primary has succeeded or ever will *)
 Lemma closed_run_from : forall evs s s' T, Inv s -> pcinv s T -> hasm s T -> F s T FDead <> 0 ->
@@ -122,22 +142,7 @@ Proof.
     destruct (HI T) as [G _]. destruct (stepr_frozen _ _ _ T E) as [_ Fz]. destruct (Fz Hh) as [Hh1 [Ep _]].
     destruct (stepr_pcn _ _ _ T E G (pc_cnt _ _ P) Hh1) as [Pn [Sent [Mono _]]].
     specialize (Sent Hh Hd). destruct (Mono Hh) as [M1 _]. destruct Pn as [A [B C]]. unfold F in *.
-    assert (Hd1 : cn (getc s1 T) FDead <> 0).
-    { destruct (quiet e) eqn:Q; [destruct (stepr_quiet _ _ _ T Q E) as [_ _ _ _ _ Af]; rewrite (Af FDead eq_refl); auto |].
-      destruct (N.eq_dec (cn (getc s1 T) FDead) 0) as [Hz | Hz]; auto. exfalso.
-      destruct (option_map (N.eqb T) (txn_of e)) as [[|] |] eqn:Et.
-      2: { assert (Hne : txn_of e <> Some T) by (intros E'; rewrite E' in Et; cbn in Et; rewrite N.eqb_refl in Et; discriminate).
-           rewrite (stepr_getc_other _ _ _ T E Hne) in Hz. contradiction. }
-      2: { assert (Hne : txn_of e <> Some T) by (intros E'; rewrite E' in Et; discriminate).
-           rewrite (stepr_getc_other _ _ _ T E Hne) in Hz. contradiction. }
-      destruct e; cbn [quiet] in Q; try discriminate Q; cbn [txn_of option_map] in Et; inversion Et as [Et1]; apply N.eqb_eq in Et1; subst;
-        cbn [stepr] in E; unfold step_pw_send, step_pw_deliver, step_pw_reply, step_rb_send, step_cts_deliver, step_told in E; chks E;
-        repeat match type of E with
-               | (match ?d with _ => _ end) = Ok _ => destruct d eqn:?; chks E; try discriminate E
-               | (if ?d then _ else _) = Ok _ => destruct d eqn:?; chks E; try discriminate E
-               end; try (okinv E); revert Hz; getc_keys; rd;
-        repeat match goal with |- context [match ?d with _ => _ end] => is_var d; destruct d eqn:? end;
-        repeat match goal with |- context [if ?d then _ else _] => destruct d eqn:? end; rd; b2p; try congruence; try discriminate. }
+    assert (Hd1 : cn (getc s1 T) FDead <> 0) by (apply (stepr_dead _ _ _ T E); exact Hd).
     destruct (IH s1 s' T) as [R1 [R2 [R3 [R4 [R5 R6]]]]]; auto.
     + eapply inv_stepr; eauto.
     + eapply pcinv_stepr; eauto.
